@@ -428,10 +428,14 @@ def run_case(case: dict) -> CaseResult:
                     for name, status, val in r:
                         if status != "ok" and not isinstance(val, APIConnectionError):
                             viol.append(V(f"c19:request-raised:{type(val).__name__}", repr(val)[:200]))
-                elif what == "pingtimeout":
+                elif what in ("pingtimeout", "pingtimeout_late"):
                     if st_ != "CONNECTED":
                         stats["skipped"] += 1
                         continue
+                    if what == "pingtimeout_late":
+                        # a healthy stretch first (pings answered), then the device vanishes without a trace
+                        classes.add("vanished_after_answered_pings")
+                        await asyncio.sleep(2.5 * K)
                     dev.auto = set()
                     await asyncio.sleep(7 * K)
                 if st_ == "STARTED":
@@ -520,7 +524,7 @@ def _case(draw, tier):
                 steps.append({"op": "disc_cancel"})
                 continue
             else:
-                steps.append({"op": "dev", "what": draw(st.sampled_from(["eof", "reset", "garbage", "discreq", "pingtimeout", "resp+discreq", "resp+garbage", "resp+eof"]))})
+                steps.append({"op": "dev", "what": draw(st.sampled_from(["eof", "reset", "garbage", "discreq", "pingtimeout", "pingtimeout_late", "resp+discreq", "resp+garbage", "resp+eof"]))})
             s = "IDLE"
     return {"noise": draw(st.integers(0, 3)) == 0, "keepalive": 2.0, "rot": draw(st.integers(0, 50)), "password": draw(st.sampled_from([None, "pw"])), "steps": steps,
             "reconnect_in_on_stop": draw(st.sampled_from([False, False, False, True, "after_await"]))}
@@ -536,7 +540,7 @@ def _disccancel_cases():
         for at in (1, 8, 32):
             for login in (False, True):
                 first = {"op": "connect", "tcp": "ok", "dev": "slowhello", "login": login, "interfere": {"what": "disccancel", "at": at}}
-                for what in ("eof", "reset", "garbage", "pingtimeout", "discreq"):
+                for what in ("eof", "reset", "garbage", "pingtimeout", "pingtimeout_late", "discreq"):
                     yield {"noise": noise, "keepalive": 2.0, "rot": at, "steps": [first, {"op": "dev", "what": what}] + second}
                 yield {"noise": noise, "keepalive": 2.0, "rot": at, "steps": [first, {"op": "disconnect", "force": True}] + second}
 
